@@ -17,9 +17,11 @@ pub enum Family {
     MixedMag,
     Constant,
     SmallInts,
+    /// k * 2^e with small k: exactly representable in f32, long decimal expansions
+    Dyadic,
 }
 
-pub const FAMILIES: [Family; 12] = [
+pub const FAMILIES: [Family; 13] = [
     Family::Uniform,
     Family::Normal,
     Family::ExpPos,
@@ -32,6 +34,7 @@ pub const FAMILIES: [Family; 12] = [
     Family::MixedMag,
     Family::Constant,
     Family::SmallInts,
+    Family::Dyadic,
 ];
 
 #[derive(Clone, Debug)]
@@ -68,6 +71,11 @@ fn draw(rng: &mut Rng, fam: Family, i: usize, outlier_at: usize) -> f64 {
         Family::MixedMag => (rng.f() - 0.5) * 10f64.powf(rng.f() * 6.0 - 3.0),
         Family::Constant => 1.0,
         Family::SmallInts => rng.below(4) as f64 - 1.0,
+        Family::Dyadic => {
+            let k = 1 + rng.below(1 << 12) as i64;
+            let e = rng.below(70) as i32 - 25;
+            (if rng.chance(0.5) { -k } else { k }) as f64 * 2f64.powi(e)
+        }
     }
 }
 
@@ -238,7 +246,7 @@ pub fn scalar_c14(rng: &mut Rng, n: usize) -> Vec<f64> {
                 if rng.chance(0.15) {
                     f64::NAN
                 } else {
-                    rng.normal() * 10f64.powf(rng.f() * 20.0 - 10.0)
+                    rng.normal() * 10f64.powf(rng.f() * 50.0 - 40.0)
                 }
             }
             2 => {
@@ -334,6 +342,8 @@ pub fn weighted_c08(rng: &mut Rng, n: usize) -> (Vec<(f64, f64)>, DataMeta, Weig
             }
         })
         .collect();
+    // a zero weight may carry either sign
+    let ws: Vec<f64> = ws.into_iter().map(|w| if w == 0.0 && rng.chance(0.2) { -0.0 } else { w }).collect();
     (xs.into_iter().zip(ws).collect(), meta, kind)
 }
 
